@@ -495,6 +495,16 @@ class C01(World):
                 return np.divide(1.0, x, out=np.zeros_like(x), where=np.isfinite(x) & (x != 0))
 
             got, want, tol = curv(got), curv(want), 1e-6
+            # and only where the pair of faces spans something: for coincident faces (a duplicate with reversed winding after an
+            # index mask with repeats) the radius is 0 / 0 and comes out as 0.45 on one mesh and 3.7e-9 on its twin
+            try:
+                ok = np.asarray(fresh.face_adjacency_span) > 1e-8
+                if ok.shape == got.shape:
+                    got, want = got[ok], want[ok]
+            except (KeyboardInterrupt, SystemExit, MemoryError):
+                raise
+            except BaseException:
+                pass
         bad = same(got, want, tol, name)
         if bad:
             ctx.fail(oracle, name, f"after {st['last_mut']} ({memo} before it): {bad}")
